@@ -18,11 +18,12 @@ import (
 	"sync/atomic"
 	"time"
 
+	pkgerrors "github.com/pkg/errors"
 	"github.com/yandex/pandora/core"
 	"github.com/yandex/pandora/core/aggregator/netsample"
 	"github.com/yandex/pandora/core/engine"
+	"github.com/yandex/pandora/core/register"
 	"github.com/yandex/pandora/core/schedule"
-	pkgerrors "github.com/pkg/errors"
 	"go.uber.org/zap"
 	"go.uber.org/zap/zapcore"
 	"go.uber.org/zap/zaptest/observer"
@@ -680,9 +681,149 @@ func realAggregatorFaults(res *vkit.Result) {
 	}
 }
 
+// ---------------------------------------------------------------- registered guns whose creation fails
+
+type regGunConf struct {
+	FailAt int `config:"fail-at"` // the FailAt-th gun of the pool cannot be created (1 = the first)
+}
+
+type regGun struct {
+	shots *atomic.Int64
+	aggr  core.Aggregator
+}
+
+func (g *regGun) Bind(a core.Aggregator, _ core.GunDeps) error { g.aggr = a; return nil }
+func (g *regGun) Shoot(core.Ammo) {
+	g.shots.Add(1)
+	s := netsample.Acquire("t")
+	s.SetProtoCode(200)
+	g.aggr.Report(s)
+}
+
+var regShots atomic.Int64
+var regMade sync.Map // pool marker → *atomic.Int64
+
+const regMarker = "verif-marker-registered-gun-creation"
+
+func regFail(conf regGunConf, n int64) error {
+	if conf.FailAt > 0 && n == int64(conf.FailAt) {
+		return errors.New(regMarker)
+	}
+	return nil
+}
+
+// registeredGunFaults: guns registered the way custom guns are (register.Gun) in every documented
+// constructor shape — returning the interface or the implementation type, directly or as a
+// factory, with an error result — whose creation fails for the first or for a later instance.
+// The pool is decoded from a config map and run by the real engine: the run must end with an
+// error that carries the constructor's error, never with success.
+type regCase struct {
+	Type   string `json:"gun_type"`
+	FailAt int    `json:"creation_fails_at"`
+}
+
+// registeredGunFaults runs the matrix in a child process: a nil gun handed to the engine would take
+// the whole process down, which the parent reports as a violation of its own.
+func registeredGunFaults(res *vkit.Result) {
+	var cases []regCase
+	for _, typ := range []string{"verif-c05-iface", "verif-c05-impl", "verif-c05-factory-iface", "verif-c05-factory-impl"} {
+		for _, failAt := range []int{0, 1, 3} {
+			cases = append(cases, regCase{typ, failAt})
+		}
+	}
+	vkit.RunChildren(res, vkit.ChildSpec{Kind: "reggun", Batches: vkit.Batches(cases, len(cases)), Parallel: 1, Timeout: 5 * time.Minute,
+		OnCrash: func(c vkit.Crash) {
+			var rc regCase
+			_ = json.Unmarshal(c.Case, &rc)
+			res.Violate("C05/registered-gun/"+strings.TrimPrefix(rc.Type, "verif-c05-")+"/process-died", "the process died or hung while running a pool whose gun creation fails:\n"+c.Output, rc)
+		}})
+}
+
+func registeredGunChild() {
+	res := vkit.NewResult("")
+	counter := func() *atomic.Int64 { return new(atomic.Int64) }
+	// component constructors are called once per gun; factories once per pool, their product once per gun
+	cIface, cImpl, fIface, fImpl := counter(), counter(), counter(), counter()
+	register.Gun("verif-c05-iface", func(conf regGunConf) (core.Gun, error) {
+		if err := regFail(conf, cIface.Add(1)); err != nil {
+			return nil, err
+		}
+		return &regGun{shots: &regShots}, nil
+	})
+	register.Gun("verif-c05-impl", func(conf regGunConf) (*regGun, error) {
+		if err := regFail(conf, cImpl.Add(1)); err != nil {
+			return nil, err
+		}
+		return &regGun{shots: &regShots}, nil
+	})
+	register.Gun("verif-c05-factory-iface", func(conf regGunConf) func() (core.Gun, error) {
+		return func() (core.Gun, error) {
+			if err := regFail(conf, fIface.Add(1)); err != nil {
+				return nil, err
+			}
+			return &regGun{shots: &regShots}, nil
+		}
+	})
+	register.Gun("verif-c05-factory-impl", func(conf regGunConf) func() (*regGun, error) {
+		return func() (*regGun, error) {
+			if err := regFail(conf, fImpl.Add(1)); err != nil {
+				return nil, err
+			}
+			return &regGun{shots: &regShots}, nil
+		}
+	})
+	counters := map[string]*atomic.Int64{"verif-c05-iface": cIface, "verif-c05-impl": cImpl, "verif-c05-factory-iface": fIface, "verif-c05-factory-impl": fImpl}
+	for i, raw := range vkit.ChildCases() {
+		var rc regCase
+		_ = json.Unmarshal(raw, &rc)
+		vkit.LogCase(i)
+		typ, failAt := rc.Type, rc.FailAt
+		{
+			c := map[string]any{"gun_type": typ, "creation_fails_at": failAt, "instances": 4}
+			counters[typ].Store(0)
+			regShots.Store(0)
+			ec, err := vkit.DecodePools(map[string]any{"pools": []any{map[string]any{"id": "p",
+				"gun":    map[string]any{"type": typ, "fail-at": failAt},
+				"ammo":   map[string]any{"type": "dummy"},
+				"result": map[string]any{"type": "discard"},
+				"rps":    map[string]any{"type": "once", "times": 40}, "startup": map[string]any{"type": "once", "times": 4}}}})
+			if err != nil {
+				res.Inconclusive(true, "pool with a registered gun rejected: %v", err)
+				continue
+			}
+			rr := vkit.RunEngine(ec, nil, 60*time.Second)
+			key := "C05/registered-gun/" + strings.TrimPrefix(typ, "verif-c05-")
+			switch {
+			case rr.Hang || rr.WaitHang:
+				res.Violate(key+"/hang", "the run did not end within 60 s:\n"+rr.Stacks, c)
+			case failAt == 0 && rr.Err != nil:
+				res.Violate(key+"/healthy-run-failed", fmt.Sprintf("no fault planned, the run ended with %v", rr.Err), c)
+			case failAt == 0 && regShots.Load() != 40:
+				res.Violate(key+"/healthy-run-shots", fmt.Sprintf("no fault planned, %d of 40 shots made", regShots.Load()), c)
+			case failAt > 0 && counters[typ].Load() < int64(failAt):
+				res.Inconclusive(false, "%s: the failing creation (number %d) was never reached", typ, failAt)
+			case failAt > 0 && rr.Err == nil:
+				res.Violate(key+"/swallowed", fmt.Sprintf("creation number %d of the pool's guns failed with %q but Engine.Run returned nil (%d shots made)", failAt, regMarker, regShots.Load()), c)
+			case failAt > 0 && !strings.Contains(rr.Err.Error(), regMarker):
+				res.Violate(key+"/cause-lost", fmt.Sprintf("the run failed with %q, which does not carry the constructor's error %q", rr.Err, regMarker), c)
+			}
+			if failAt > 0 {
+				res.Count("faults_fired", 1)
+			}
+			res.Count("registered_gun_runs", 1)
+			res.Eval(vkit.JSON(c), failAt > 0)
+		}
+	}
+	res.ChildDone()
+}
+
 func main() {
 	if vkit.IsChild() {
-		child()
+		if vkit.ChildKind() == "reggun" {
+			registeredGunChild()
+		} else {
+			child()
+		}
 		return
 	}
 	res := vkit.NewResult("fault plan = component (provider, aggregator, gun factory, bind, warm-up, schedule factory, shot panic, cancel, none) × position, each repeated K times with 1–8 instances, shared/per-instance profile and 1–3 pools; distinct = distinct (plan, instances, pools, observed await order of the pool's result channels); non-trivial = a fault fired or a cancel was delivered")
@@ -731,6 +872,7 @@ func main() {
 		}})
 	realProviderFaults(res)
 	realAggregatorFaults(res)
+	registeredGunFaults(res)
 	vkit.CheckRaceLog(res, "C05")
 	if res.Counter("faults_fired") < int64(len(cases)/3) {
 		res.Inconclusive(true, "too few faults fired: %d of %d runs", res.Counter("faults_fired"), len(cases))
